@@ -501,7 +501,8 @@ def gen_rich(rnd):
             st["doc"] = [rnd.choice(["hello", "two words", "  indented", "x <c> y", "Ünï"]) for _ in range(rnd.randint(1, 3))]
         if 0.3 <= r < 0.6 or r > 0.9:
             w = rnd.randint(1, 3)
-            st["table"] = [["h%d" % i for i in range(w)],
+            # (sometimes a heading is written twice: the cells of such a table are still the cells)
+            st["table"] = [["h%d" % (0 if (i and rnd.random() < 0.2) else i) for i in range(w)],
                            [[rnd.choice(["1", "a b", "<c>", "ü", "x"]) for _ in range(w)] for _ in range(rnd.randint(0, 3))]]
         return st
     scens = []
